@@ -41,6 +41,9 @@
                         the same with the comments kept: the token list the PARSER is given (map classify (lex ..))
                         is literally the same, hence C14_respace_same_program / C14_crlf_same_program: source text
                         to tree, the same outcome.
+     C14_blank_lines_program (Parse/BlankCtx.v, Parse/BlankSim.v) BLANK LINES anywhere (every nesting level; comment-only
+                        lines count as blank): both files accepted with the same tree up to EmptyStatements at every
+                        level (Syntax/DropEmpty.v), or both rejected - by a stuttering simulation of the whole parser.
    Nothing of this file is left as an unproved Prop except the refuted first formulation
    C14_nl_in_brackets_statement_level (kept visible next to its refutation).  *)
 From Coq Require Import String List NArith Bool Arith.
@@ -49,6 +52,7 @@ From Sylt Require Import Lex.Regex Lex.Logos Lex.LayoutProofs Gen.GenTokens
   Parse.Sugar Parse.Layout Parse.LayoutSim Parse.ParserTotal Parse.PreSim Parse.LayoutStmt Gen.GenPrec.
 From Sylt Require Parse.SimGen Parse.CommentSim.
 From Sylt Require Lex.WsInsert Parse.SourceLayout.
+From Sylt Require Syntax.DropEmpty Parse.BlankCtx Parse.BlankSim.
 From Sylt Require Import Syntax.SugarNF Parse.StmtRoundTrip Parse.SugarNFProofs.
 Import ListNotations.
 
@@ -320,6 +324,54 @@ Proof.
   intros ts ts' f ss c ss' c' H Hne E E'. pose proof (C14_comments_anywhere ts ts' f H Hne) as G.
   rewrite E, E' in G. apply snf_program_of_noempty. exact G.
 Qed.
+
+(* ---- blank lines, whole files, every nesting level ----
+   [ts'] is [ts] with more blank lines: newlines added next to newlines (anywhere: between top-level statements,
+   inside function bodies, blocks, branches of if / case, inside brackets), and at the start of the file.  Compared are
+   the token lists WITHOUT their comments, so a comment-only line counts as a blank line, and comments may differ.
+   With at least parse_fuel on both sides (any amounts): both files are accepted and the trees are equal after
+   removing the EmptyStatements from every statement list (Syntax/DropEmpty.v: the resolver never looks at them,
+   C14_resolve_drops_empties below), or both are rejected.
+   Proof (Parse/BlankCtx.v, Parse/BlankSim.v): a STUTTERING simulation of the whole parser - the two runs are in step
+   except at the heads of the loops for which a newline is a no-op (the statement loop of a block, where the right
+   run produces one more EmptyStatement; the case-branch loop; the blob-field loop; the module loop), where the right
+   run goes round once more for every newline the left list does not have; results are compared up to
+   EmptyStatements, out of fuel is a wildcard that the totality theorem removes at the end, error contexts are
+   not compared (a block that has recorded an error never answers Ok). *)
+Theorem C14_nl_plain : Parse.BlankSim.nl_plain gen_ptab.
+Proof. split; vm_compute; reflexivity. Qed.
+
+Theorem C14_blank_lines_program : forall ts ts' f f',
+  Parse.BlankSim.more_blank_lines (CommentSim.ec ts) (CommentSim.ec ts') -> hd TEOF (CommentSim.ec ts) <> TEOF ->
+  parse_fuel ts <= f -> parse_fuel ts' <= f' ->
+  match parse_program gen_ptab f ts, parse_program gen_ptab f' ts' with
+  | Ok (ss, _), Ok (ss', _) => Syntax.DropEmpty.de_program ss = Syntax.DropEmpty.de_program ss'
+  | Err _ _, Err _ _ => True
+  | _, _ => False
+  end.
+Proof. exact (Parse.BlankSim.blank_lines_program gen_ptab C14_total_ok C14_nl_plain). Qed.
+
+(* the hypothesis on token lists with their comments: blank lines added, comments untouched *)
+Theorem C14_more_blank_lines_with_comments : forall ts ts',
+  Parse.BlankSim.more_blank_lines ts ts' -> Parse.BlankSim.more_blank_lines (CommentSim.ec ts) (CommentSim.ec ts').
+Proof. exact Parse.BlankSim.more_blank_lines_ec. Qed.
+
+(* the definitions used, pinned *)
+Example C14_blank_lines_defs :
+  (forall ts ts', Parse.BlankSim.more_blank_lines ts ts' <->
+                  exists k r0, ts' = (repeat (TK KNewline) k ++ r0)%list /\ Parse.BlankCtx.BL ts r0) /\
+  Parse.BlankCtx.BL [] [] /\
+  (forall t l l', Parse.BlankCtx.BL l l' -> Parse.BlankCtx.BL (t :: l) (t :: l')) /\
+  (forall l l', Parse.BlankCtx.BL (TK KNewline :: l) (TK KNewline :: l') ->
+                Parse.BlankCtx.BL (TK KNewline :: l) (TK KNewline :: TK KNewline :: l')) /\
+  (forall ss, Syntax.DropEmpty.de_program ss = Syntax.DropEmpty.drop_with Syntax.DropEmpty.de_s ss) /\
+  Syntax.DropEmpty.de_program [SEmpty; SBlock [SEmpty; SBreak; SEmpty]; SEmpty; SLoop (EBool true) SEmpty]
+  = [SBlock [SBreak]; SLoop (EBool true) SEmpty].
+Proof.
+  split; [intros ts ts'; split; intros H; exact H|]. split; [constructor|]. split; [intros; constructor; assumption|].
+  split; [intros; apply Parse.BlankCtx.BL_dup; assumption|]. split; reflexivity.
+Qed.
+Print Assumptions C14_blank_lines_program.
 
 (* ---- stated, refuted above, kept visible ---- *)
 Definition C14_nl_in_brackets_statement_level : Prop := nl_in_brackets_statement_level gen_ptab.   (* refuted above *)
@@ -643,6 +695,24 @@ Example C14_example_crlf_string :
   forallb Lex.WsInsert.nl_alone (raw_lex (length s) gen_table s) = false /\
   kinds (lex gen_table (Lex.WsInsert.crlf s)) <> kinds (lex gen_table s).
 Proof. split; [vm_compute; reflexivity|vm_compute; discriminate]. Qed.
+(* blank lines inside a function body, before `end`, at the start and the end of the file: the hypothesis of
+   C14_blank_lines_program holds, the trees differ, they are equal up to EmptyStatements *)
+Definition C14_src_blank : list N :=
+  ([10]%N ++ codes "main :: fn do // count" ++ [10; 10]%N ++ codes "  a := 1 + 2" ++ [10; 10; 10]%N ++ codes "end" ++ [10; 10]%N)%list.
+Ltac c14_bl := first [ apply Parse.BlankCtx.BL_nil | (apply Parse.BlankCtx.BL_dup; c14_bl) | (apply Parse.BlankCtx.BL_cons; c14_bl) ].
+Example C14_example_blank_lines :
+  let ts := map classify (lex gen_table C14_src_lf) in
+  let ts' := map classify (lex gen_table C14_src_blank) in
+  Parse.BlankSim.more_blank_lines (CommentSim.ec ts) (CommentSim.ec ts') /\
+  (exists ss c ss' c', parse_program gen_ptab (parse_fuel ts) ts = Ok (ss, c) /\
+                       parse_program gen_ptab (parse_fuel ts') ts' = Ok (ss', c') /\ ss <> ss' /\
+                       Syntax.DropEmpty.de_program ss = Syntax.DropEmpty.de_program ss').
+Proof.
+  split.
+  - vm_compute. exists 1. eexists. split; [reflexivity|]. c14_bl.
+  - vm_compute. do 4 eexists. split; [reflexivity|]. split; [reflexivity|]. split; [discriminate|reflexivity].
+Qed.
+
 Example C14_example_source_to_tree :
   map classify (lex gen_table C14_src_respaced) = map classify (lex gen_table C14_src_lf) /\
   (exists ss c, parse_program gen_ptab (parse_fuel (map classify (lex gen_table C14_src_lf)))
